@@ -78,7 +78,7 @@ def _has_quant(pc, goal):
     return False
 
 
-def discharge(ob, tier="quick", want_model=True):
+def discharge(ob, tier="quick", want_model=True, quick_only=False):
     """sets ob.status in {'proved','failed','unknown'}"""
     t0 = time.time()
     rl = {"quick": RL_QUICK, "thorough": RL_THOROUGH, "canary": 3_000_000}[tier]
@@ -162,6 +162,11 @@ def discharge(ob, tier="quick", want_model=True):
         ob.status = "unknown"
         ob.detail = "solver said sat but its model satisfies the goal (spurious counter-model)" if spurious \
             else s.reason_unknown()
+        if quick_only:
+            # first look at an obligation that carries a known-finding region (run.py): the caller asks the region
+            # question next and comes back for the full fall-back chain only when that does not settle it
+            ob.time = time.time() - t0
+            return ob
         if tier != "canary":
             # quantifier instantiation is sensitive to term numbering inherited from earlier queries of this
             # process: re-ask in a fresh context and with other seeds before giving up (same rlimit each time)
